@@ -70,7 +70,7 @@ def run(ctx):
     # permits taken through the standalone API before the run, successive executions, every nesting of depth <= 2 around the bulkhead
     import seq
     binary = vlib.build_harness(ctx)
-    st = [s for s in seq.all_stacks(["bh2p", "bh1", "rp1", "fbR", "to", "cbA"], 2 if ctx.tier == "quick" else 3) if any(x.startswith("bh") for x in s)]
+    st = [s for s in seq.all_stacks(["bh2p", "bh1", "bh0", "rp1", "fbR", "to", "cbA"], 2 if ctx.tier == "quick" else 3) if any(x.startswith("bh") for x in s)]
     mm = seq.run_family(ctx, binary, "bhseq", st, outs=seq.OUTS3, maxcalls=3, execs=2)
     seq.report(ctx, mm, lambda m: m["tag"] in ("calls", "ret", "probe") or m.get("kind") == "bh")
     return vlib.finish(ctx, rule="6 placements of a bulkhead (alone, under retry, under/over timeout, under fallback, under hedge) x maxConcurrency 1-2 x max wait 0/3 x 3 executions (sync and async) with "
